@@ -16,7 +16,9 @@ request (blank separated):
   contains (`error=hexspec` when that decoder rejects the file, `load=rejected` when the model of `CMD_HexFile` does).
 answer: `model=<ok|rejected> rc=<eq|ne> text=<eq|ne> err=<eq|ne> l1=<eq|ne> hang=<0|1> areas=<eq|ne|unparsed>
          inside=<ok|fail> disjoint=<ok|fail> bytes=<ok|fail|na> bad=<addr|-> ncode=.. ndata=.. nbytes=.. ninstr=.. undef=<n> [mtext=<hex>]`
- * text/err/rc/areas – (B) model against the real run;  l1 – chunks.c array algorithm vs interval-set insertion
+ * text/err/rc/areas – (B) model against the real run;  l1 – chunks.c array algorithm (the arrays the model runs on, and the
+   areas it prints) vs the ghost interval-set lists: always `eq` by `C15_run_refine` (Props/C15.lean), kept as a test of that theorem's
+   reading of the model
  * undef – number of dumped bytes the model knows to be read from memory `DisasmIterator` never wrote (`Code[]` behind the part
    `RetrieveCodeFromChunkList` filled); the text comparison accepts any hex digits there
 
@@ -132,14 +134,15 @@ def handle (line : String) : String :=
           | none => "error=cpu"
           | some dis =>
             let r0 := runDasl dis img lower entries 300000
-            let r : Result := if ld.ok then { r0 with stderr := ld.err ++ r0.stderr } else ⟨false, "", [], [], [], [], [], false⟩
+            let r : Result := if ld.ok then { r0 with stderr := ld.err ++ r0.stderr } else ⟨false, "", [], [], [], [], [], [], [], [], false⟩
             let realOut := strOfBytes rso
             let realErr := strOfBytes rse
             let mErr := String.join (r.stderr.map (· ++ "\n"))
             let textEq := r.ok && matchesUndef r.stdout realOut
             let undef := (r.stdout.toList.filter (· == undefMark)).length / 2
             -- L1 (array algorithm) against L2 (interval set)
-            let l1 := sameSet r.codeC ((r.areas.filter (!·.2)).map (·.1))
+            let l1 := sameSet r.codeC r.codeS && sameSet r.dataC r.dataS &&
+              (r.areas.filter (!·.2)).map (·.1) == r.codeS && (r.areas.filter (·.2)).map (·.1) == r.dataS
             -- (C) spec on the real output
             let areasReal := Spec.parseAreas realOut
             let areasModel : List Spec.Area := r.areas.map (fun p => ⟨p.1.start, p.1.start + p.1.len - 1, p.2⟩)
